@@ -13,6 +13,8 @@ Definition statics_get_m := statics_get.
 Definition rust_ident_m := rust_ident uni_alnum.
 
 Definition run_build_m := run_build uni_debug_esc uni_alnum compile_m.
+Definition plan_ok_m utils hdr mm tree base cs :=
+  plan_ok (plan (fst (run_script uni_debug_esc uni_alnum compile_m utils hdr mm tree base cs))).
 
-Extraction "model.ml" run_build_m compile_m to_html to_buffer buffer_eq
+Extraction "model.ml" run_build_m plan_ok_m compile_m to_html to_buffer buffer_eq
   apply_op_m sass_ref_m static_name_m statics_get_m rust_ident_m finish empty_statics checksum_slug md5.
